@@ -854,8 +854,32 @@ ERROR_QUERIES = [
 ]
 
 
+EXTRA_QUERIES = [
+    # (python text, javascript text or None, A, B): corners that the generated vocabulary does not reach; oracle: the Python engine (rows, header, error kind)
+    ('select * except a2, a2', None, [['p', 'q', 'r'], ['s', 't', 'u']], None),
+    ('select * except a3, a1, a3', None, [['p', 'q', 'r', 'w']], None),
+    ('select * except a2, a[2], a2', None, [['p', 'q', 'r']], None),
+    ('select a1 + "$$", a2', None, [['x', '1']], None),
+    ("select a1 where a2 == '$&'", None, [['x', '$&'], ['y', '$'], ['z', "select a1 where a2 == '$&'"]], None),
+    ('update a2 = a2 + "$$" + "$1" + "$`"', None, [['x', '5']], None),
+    ("select 'a$$b$&c$`d', a1", None, [['x']], None),
+    ("select a1 where a1 == '$$' or a1 == '$'", "select a1 where a1 == '$$' || a1 == '$'", [['$$'], ['$'], ['x']], None),
+    ('select SUM(a1)', None, [['2 apples'], ['3']], None),
+    ('select MAX(a1), MIN(a1)', None, [['3'], ['12abc']], None),
+    ('select AVG(a1)', None, [['3,5'], ['1']], None),
+    ('select a2, MEDIAN(a1) group by a2', None, [['1', 'k'], ['7x', 'k']], None),
+    ('select distinct a1, a2', None, [['x', None], ['x', ''], ['x', None], ['x', '']], None),
+    ('select distinct count a1, a2', None, [['x', None], ['x', ''], ['x', None]], None),
+    ('select distinct a2', None, [['x', None], ['y', ''], ['z', 'null'], ['w', None]], None),
+    ('select distinct a1, b2 left join b on a1 == b1', None, [['k'], ['m'], ['k']], [['k', '']]),
+    ('select distinct a1, a2', None, [['a', 'b\x1fc'], ['a\x1fb', 'c'], ['a,b', 'c'], ['a', 'b,c']], None),
+]
+
+
 def error_cases():
     cases = []
+    for py, js, A_, B_ in EXTRA_QUERIES:
+        cases.append({'spec': None, 'py': py, 'js': js or py, 'A': A_, 'B': B_, 'an': None, 'bn': None, 'oracle': 'python-engine'})
     A = CURATED_A[2]
     B = CURATED_B[2]
     for py, js in ERROR_QUERIES:
